@@ -112,6 +112,7 @@ def run(rep):
             ins = pm.decode(bs)
             kinds = [('metavar' if i[0] == 'cleanmv' else i[0]) for i in (ins or [])]
             steps = []
+            load_slots = []          # the memory slot every pretty `Load <id>=<slot>` line names, in order
             for line in text.split('\n'):
                 if line[:1] in ('\t', ' ', ''):
                     continue
@@ -121,8 +122,17 @@ def run(rep):
                         tok = kw
                 if tok:
                     steps.append(KW[tok])
+                    if tok == 'Load':
+                        tail = line.rsplit('=', 1)[-1].strip()
+                        load_slots.append(int(tail) if tail.isdigit() else None)
             n_files += 1
             n_steps += len(kinds)
+            bin_slots = [i[1] for i in (ins or []) if i[0] == 'load']
+            if ins is not None and steps == kinds and load_slots != bin_slots:
+                j = next((j for j, (x, y) in enumerate(zip(load_slots, bin_slots)) if x != y), 0)
+                step_bad.append({'request': br[:3000], 'file': ('gamma', 'claim', 'proof')[fi - 1], 'load_number': j,
+                                 'pretty_slot': load_slots[j] if j < len(load_slots) else None, 'binary_slot': bin_slots[j] if j < len(bin_slots) else None,
+                                 'problem': 'a pretty Load step names another memory slot than the binary Load instruction'})
             if ins is None or steps != kinds:
                 j = next((j for j, (x, y) in enumerate(zip(steps, kinds)) if x != y), min(len(steps), len(kinds)))
                 step_bad.append({'request': br[:3000], 'file': ('gamma', 'claim', 'proof')[fi - 1], 'first_difference_at': j,
